@@ -16,8 +16,9 @@ The one integer that is **not** a `usize`: the nesting counter `level` of `conta
 
 The model follows the tree *after* the `fix:` commits of C16 (checked length arithmetic, fused iterators,
 `container_len` within the slice, `tlv_iter` nesting, `bytes_iter` 64-bit strings, `TLVWrite::tlv` refusing
-strings that do not fit their length field); `Old.elemLen` keeps the previous arithmetic so that the failing
-witness stays a theorem, and `encode` is the truncating writer (`write` the fixed, fallible one).
+strings that do not fit their length field, `Display` / `Debug` capped at `MAX_FMT_DEPTH` nested containers);
+`Old.elemLen` and `Old.fmtOf` keep the previous arithmetic / recursion so that the failing witnesses stay
+theorems, and `encode` is the truncating writer (`write` the fixed, fallible one).
 Import-free (apart from the generated constants) so that the driver links as an executable.
 -/
 namespace Tlv
@@ -931,11 +932,10 @@ def fmtSeq (f : Bytes → Res Unit) : List (Res Bytes) → Res Unit
     f e
     fmtSeq f rest
 
-/-- control flow of `TLVElement::fmt` (the body of `Display` and `Debug`; the `core::fmt::Write` sink is
-assumed not to fail, every error of the reader becomes `fmt::Error`): `tag()`, `value()`, and for
-`value_type().is_container()` — start **or end** — `container()?` and the **recursive** formatting of
-every child, then `match value_type { Struct | Array | List => …, _ => unreachable!() }`.
-The Rust recursion has no depth cap; the model runs it on fuel (`.panic .fuel` = unbounded recursion). -/
+namespace Old
+/-- control flow of `TLVElement::fmt` **before** the fix `C16-fmt-recursion-stack`: `tag()`, `value()`, and for
+`value_type().is_container()` — start **or end** — `container()?` and the **recursive** formatting of every
+child with no depth cap; the model runs it on fuel (`.panic .fuel` = a recursion deeper than the fuel). -/
 def fmtOf : Nat → Bytes → Res Unit
   | 0, _ => .panic .fuel
   | d + 1, bs => do
@@ -948,10 +948,45 @@ def fmtOf : Nat → Bytes → Res Unit
       | .cont _ => pure ()
       | _ => .panic .unreachable
     else pure ()
+end Old
 
-/-- `TLVSequence::fmt` (the body of `Display` / `Debug` of `TLVSequence` and of `TLVSequenceIter`):
-`for elem in self.iter() { elem.map_err(fmt::Error)?.fmt(indent, f)? }` -/
-def seqFmtOf (seq : Bytes) : Res Unit := fmtSeq (fmtOf (seq.length + 1)) (elements seq)
+/-- what `TLVElement::fmt` does with the children of a container it does **not** descend into (depth cap
+reached): `if let Some(elem) = elems.next() { elem.map_err(fmt::Error)?; write!(f, " ... ") }` -/
+def fmtFirst : List (Res Bytes) → Res Unit
+  | [] => pure ()
+  | r :: _ => do
+    let _ ← r
+    pure ()
+
+/-- one call of `TLVElement::fmt` (the body of `Display` and `Debug`; the `core::fmt::Write` sink is assumed
+not to fail, every error of the reader becomes `fmt::Error`): `tag()`, `value()`, and for
+`value_type().is_container()` — start **or end** — `container()?`, then `kids` on the children, then
+`match value_type { Struct | Array | List => …, _ => unreachable!() }` -/
+def fmtBody (kids : List (Res Bytes) → Res Unit) (bs : Bytes) : Res Unit := do
+  let _ ← tagOf bs
+  let v ← valueOf bs
+  if v.vt.isContainer then do
+    let seq ← containerOf bs
+    kids (elements seq)
+    match v.vt with
+    | .cont _ => pure ()
+    | _ => .panic .unreachable
+  else pure ()
+
+/-- `TLVElement::fmt(depth, f)` after the fix, indexed by the **remaining** depth budget
+`rem = MAX_FMT_DEPTH − depth`: with budget left the children are formatted recursively with one less, at
+`depth ≥ MAX_FMT_DEPTH` (`rem = 0`) the container is not entered (`fmtFirst`).  Structural recursion on the
+budget: no fuel, and at most `rem + 1` nested calls whatever the input. -/
+def fmtAt : Nat → Bytes → Res Unit
+  | 0 => fmtBody fmtFirst
+  | rem + 1 => fmtBody (fmtSeq (fmtAt rem))
+
+/-- `Display` / `Debug` of a `TLVElement`: `self.fmt(0, f)` -/
+def fmtOf (bs : Bytes) : Res Unit := fmtAt Consts.tlvMaxFmtDepth bs
+
+/-- `TLVSequence::fmt(0, f)` (the body of `Display` / `Debug` of `TLVSequence` and of `TLVSequenceIter`):
+`for elem in self.iter() { elem.map_err(fmt::Error)?.fmt(depth, f)? }` -/
+def seqFmtOf (seq : Bytes) : Res Unit := fmtSeq (fmtAt Consts.tlvMaxFmtDepth) (elements seq)
 
 /-! ## Re-encoding a decoded element (`ToTLV for TLVElement`) -/
 
